@@ -94,9 +94,10 @@ def encode_state(st, length=24, frac_style="default"):
     b[5] = 0x7F
     b[6] = 0x00
     b[7] = 0x30 | (st["swing"] & 0x0F)
-    b[8] = (0x20 if st["turbo"] else 0) | (0x40 if st["indep_aux"] else 0) | (0x80 if st["follow_me"] else 0)
+    tb = st.get("turbo_report", "both")      # which of the two vendor turbo flags the device raises
+    b[8] = (0x20 if st["turbo"] and tb in ("both", "b8") else 0) | (0x40 if st["indep_aux"] else 0) | (0x80 if st["follow_me"] else 0)
     b[9] = (0x10 if st["eco"] else 0) | (0x20 if st["purifier"] else 0) | (0x08 if st["aux_heat"] else 0)
-    b[10] = (0x01 if st["sleep"] else 0) | (0x02 if st["turbo"] else 0) | (0x04 if st["fahrenheit"] else 0)
+    b[10] = (0x01 if st["sleep"] else 0) | (0x02 if st["turbo"] and tb in ("both", "b10") else 0) | (0x04 if st["fahrenheit"] else 0)
     b[11] = st["indoor_raw"] & 0xFF
     b[12] = st["outdoor_raw"] & 0xFF
     b[13] = alt | (0x20 if st["filter_alert"] else 0)
